@@ -5,7 +5,9 @@
    Go (pkg/op unless noted)                             Gallina
    ------------------------------------------------------------------------
    oidc.NewIDTokenClaims + CreateIDToken                 mk_id_token
-   oidc.AppendClientIDToAudience                         append_client
+   oidc.AppendClientIDToAudience                         append_client (exact comparison)
+   oidc.mergeAndMarshalClaims + mergeRegistered           merge_registered over id_written / at_written
+   strings.EqualFold / encoding/json member matching      fold_name, fold_eq
    IDTokenClaims.SetUserInfo (after fix Fxx-C06-1)       set_userinfo
    removeUserinfoScopes                                  remove_userinfo
    Client.RestrictAdditional{IdToken,AccessToken}Scopes  restrict (refstore: drop-list)
@@ -156,17 +158,106 @@ Definition userinfo (u : option user) (sub : string) (scopes : list string) : ui
        (for_scope "profile" u_username) (for_scope "phone" u_phone) (has "phone")
        (for_scope "address" u_addr).
 
-(* refstore.GetPrivateClaimsFromScopes: custom:<n> -> n = "v-"client *)
+(* refstore.GetPrivateClaimsFromScopes: custom:<n> -> private claim n = "v-"client;
+   refstore setUserinfo (EnableCustomUserinfoClaims): custom:<n> -> userinfo claim
+   n = "u-"subject.  The claim NAME is whatever follows the prefix: any string,
+   also a case variant or a Unicode fold variant of a registered claim name. *)
 Definition custom_name (s : string) : option string :=
   if prefix "custom:" s then Some (substring 7 (String.length s - 7) s) else None.
-Fixpoint custom_claims (client : string) (scopes : list string) : list (string * string) :=
+Fixpoint custom_with (v : string) (scopes : list string) : list (string * string) :=
   match scopes with
   | [] => []
   | s :: r => match custom_name s with
-              | Some n => (n, "v-" ++ client)%string :: custom_claims client r
-              | None => custom_claims client r
+              | Some n => (n, v) :: custom_with v r
+              | None => custom_with v r
               end
   end.
+Definition custom_claims (client : string) (scopes : list string) : list (string * string) :=
+  custom_with ("v-" ++ client)%string scopes.
+Definition ui_custom_claims (sub : string) (scopes : list string) : list (string * string) :=
+  custom_with ("u-" ++ sub)%string scopes.
+
+(* ---------------- claim names under case folding ----------------
+   strings.EqualFold and encoding/json's member matching compare names under
+   Unicode simple case folding.  For a name that is compared with an ASCII
+   name this is: ASCII letters without case, U+017F (long s, bytes C5 BF) = s,
+   U+212A (Kelvin sign, bytes E2 84 AA) = k. *)
+Definition lower_ascii (a : ascii) : ascii :=
+  let n := nat_of_ascii a in
+  if (65 <=? n) && (n <=? 90) then ascii_of_nat (n + 32) else a.
+
+Fixpoint fold_name (s : string) : string :=
+  match s with
+  | EmptyString => EmptyString
+  | String a r =>
+      match r with
+      | String b r1 =>
+          if (nat_of_ascii a =? 197) && (nat_of_ascii b =? 191) then String "s" (fold_name r1)
+          else match r1 with
+               | String c r2 =>
+                   if (nat_of_ascii a =? 226) && (nat_of_ascii b =? 132) && (nat_of_ascii c =? 170)
+                   then String "k" (fold_name r2)
+                   else String (lower_ascii a) (fold_name r)
+               | EmptyString => String (lower_ascii a) (fold_name r)
+               end
+      | EmptyString => String (lower_ascii a) EmptyString
+      end
+  end.
+
+Definition fold_eq (a b : string) : bool := fold_name a =s fold_name b.
+
+(* a custom claim name that a case-insensitive decoder would take for one of
+   the registered names that are written into the token *)
+Definition folds_to (written : list string) (k : string) : bool := existsb (fold_eq k) written.
+
+(* oidc.mergeRegistered: the registered members that are written (omitempty:
+   the non-empty ones) go over the custom claims; a custom claim whose name is
+   one of them - or differs from one of them only by case folding - is gone *)
+Definition merge_registered (written : list string) (custom : list (string * string))
+  : list (string * string) :=
+  filter (fun kv => negb (folds_to written (fst kv))) custom.
+
+(* the registered members of an ID token / a JWT access token that are written
+   (json omitempty: empty strings, empty lists, zero times and false are not) *)
+Definition opt_name (b : bool) (n : string) : list string := if b then [n] else [].
+Definition nonempty (s : string) : bool := negb (s =s "").
+Definition nonzero (z : Z) : bool := negb (Z.eqb z 0).
+Definition nonnil {A} (l : list A) : bool := match l with [] => false | _ => true end.
+
+Definition id_written (c : idclaims) : list string :=
+  opt_name (nonempty (i_iss c)) "iss" ++ opt_name (nonempty (i_sub c)) "sub"
+  ++ opt_name (nonnil (i_aud c)) "aud" ++ opt_name (nonempty (i_azp c)) "azp"
+  ++ opt_name (nonempty (i_client_id c)) "client_id"
+  ++ opt_name (nonzero (i_exp c)) "exp" ++ opt_name (nonzero (i_iat c)) "iat"
+  ++ opt_name (nonzero (i_auth_time c)) "auth_time"
+  ++ opt_name (nonempty (i_nonce c)) "nonce" ++ opt_name (nonempty (i_acr c)) "acr"
+  ++ opt_name (nonnil (i_amr c)) "amr"
+  ++ opt_name (nonempty (i_at_hash c)) "at_hash" ++ opt_name (nonempty (i_c_hash c)) "c_hash"
+  ++ opt_name (nonempty (i_name c)) "name" ++ opt_name (nonempty (i_email c)) "email"
+  ++ opt_name (i_email_verified c) "email_verified"
+  ++ opt_name (nonempty (i_username c)) "preferred_username"
+  ++ opt_name (nonempty (i_phone c)) "phone_number"
+  ++ opt_name (i_phone_verified c) "phone_number_verified"
+  ++ opt_name (nonempty (i_addr c)) "address".
+
+Definition at_written (a : atclaims) : list string :=
+  opt_name (nonempty (a_iss a)) "iss" ++ opt_name (nonempty (a_sub a)) "sub"
+  ++ opt_name (nonnil (a_aud a)) "aud"
+  ++ opt_name (nonzero (a_exp a)) "exp" ++ opt_name (nonzero (a_iat a)) "iat"
+  ++ opt_name (nonzero (a_nbf a)) "nbf"
+  ++ opt_name (nonempty (a_client_id a)) "client_id" ++ opt_name (nonempty (a_jti a)) "jti".
+
+(* MarshalJSON of the claims: the custom claims that survive next to the members *)
+Definition id_with_custom (c : idclaims) (custom : list (string * string)) : idclaims :=
+  mkID (i_iss c) (i_sub c) (i_aud c) (i_azp c) (i_client_id c)
+       (i_exp c) (i_iat c) (i_auth_time c) (i_nonce c) (i_acr c) (i_amr c)
+       (i_at_hash c) (i_c_hash c) (i_name c) (i_email c) (i_email_verified c)
+       (i_username c) (i_phone c) (i_phone_verified c) (i_addr c)
+       (merge_registered (id_written c) custom).
+
+Definition at_with_custom (a : atclaims) (custom : list (string * string)) : atclaims :=
+  mkAT (a_iss a) (a_sub a) (a_aud a) (a_exp a) (a_iat a) (a_nbf a) (a_client_id a) (a_jti a)
+       (merge_registered (at_written a) custom).
 
 (* ids the storage will hand out next: without / with a refresh token *)
 Record next_ids := mkIds { id_plain : string; id_rt : string; id_with_rt : string }.
@@ -186,7 +277,8 @@ Section Tokens.
     | None => ""
     end.
 
-  (* IDTokenClaims.SetUserInfo: subject, profile, email (a subject the storage
+  (* IDTokenClaims.SetUserInfo: subject, profile, email, phone, address; the userinfo's
+     custom claims are merged on marshalling (id_with_custom) (a subject the storage
      left empty does not erase the request's subject: fix Fxx-C06-1) *)
   Definition set_userinfo (c : idclaims) (ui : uinfo) : idclaims :=
     mkID (i_iss c) (if ui_sub ui =s "" then i_sub c else ui_sub ui) (i_aud c) (i_azp c) (i_client_id c)
@@ -230,18 +322,20 @@ Section Tokens.
     let base := id_base issuer f cl k rq access now in
     match id_userinfo_scopes f cl rq access with
     | None => base
-    | Some scopes => set_userinfo base (userinfo u (rq_sub rq) scopes)
+    | Some scopes => id_with_custom (set_userinfo base (userinfo u (rq_sub rq) scopes))
+                                    (ui_custom_claims (rq_sub rq) scopes)
     end.
 
   (* oidc.NewAccessTokenClaims + CreateJWT *)
   Definition mk_access_token_claims (issuer : string) (f : flow) (cl : client)
              (rq : request) (tid : string) (exp now : Z) : atclaims :=
-    mkAT issuer (rq_sub rq)
-         (match rq_aud rq with [] => [cl_id cl] | a => a end)
-         exp (sec now - cl_skew cl)%Z (sec now - cl_skew cl)%Z
-         (cl_id cl) tid
-         (if is_exchange f then []
-          else custom_claims (cl_id cl) (remove_userinfo (restrict (cl_drop_at cl) (rq_scopes rq)))).
+    at_with_custom
+      (mkAT issuer (rq_sub rq)
+            (match rq_aud rq with [] => [cl_id cl] | a => a end)
+            exp (sec now - cl_skew cl)%Z (sec now - cl_skew cl)%Z
+            (cl_id cl) tid [])
+      (if is_exchange f then []
+       else custom_claims (cl_id cl) (remove_userinfo (restrict (cl_drop_at cl) (rq_scopes rq)))).
 
   (* CreateBearerToken: AES-CFB of tokenID ":" subject under a fresh IV *)
   Definition bearer_plain (tid sub : string) : string := (tid ++ ":" ++ sub)%string.
